@@ -10,7 +10,7 @@ EXPLANATION = ('The group table is lifted from the HIR of the single match over 
                'content, family = lattice system and W^T G W = G for the family\'s generic metric.')
 
 
-def run(ctx):
+def _run_rules(ctx):
     rep, f = ctx.rep, ctx.facts
     rep.trust('transcription of ITA plane groups 1,2,3,4,6,7,8 in pk/tables.py; triplet reader in pk/tables.py')
     rep.assume('the run-time parser reads these literal strings as the notation defines them (C17 decides only '
@@ -140,3 +140,10 @@ def _parser_lemmas(ctx):
             rep.ok('R5', 'parser:' + o['instance'], o['construct'], o['why'])
         else:
             rep.fail('R5', 'parser:' + o['instance'], o['construct'], o['why'], o['reason'])
+
+
+def run(ctx):
+    _run_rules(ctx)
+    from .common import import_obligations
+    # the cell built for a family is one the family's operations leave invariant (C04.R3: angle start and degrees of freedom per family)
+    import_obligations(ctx, 'C04', 'R7', only_rules={'R3'}, floor=5)
